@@ -318,7 +318,7 @@ class Term:
             iterms = [
                 Term(*deepcopy(p[0].components), *deepcopy(p[1].components)) for p in products
             ]
-            return Model(*terms) + Model(*iterms)
+            return Model() + Model(*terms) + Model(*iterms)
         else:  # pragma: no cover
             return NotImplemented
 
@@ -968,14 +968,14 @@ class Model:
             products = product(self.common_terms, other.common_terms)
             terms = self.common_terms + other.common_terms
             iterms = [Term(*p[0].components, *p[1].components) for p in products]
-            return Model(*terms) + Model(*iterms)
+            return Model() + Model(*terms) + Model(*iterms)
         elif isinstance(other, Term):
             if len(other.components) == 1 and isinstance(other.components[0].name, (int, float)):
                 raise TypeError("Interaction with numeric does not make sense.")
             products = product(self.common_terms, [other])
             terms = self.common_terms + [other]
             iterms = [Term(*p[0].components, *p[1].components) for p in products]
-            return Model(*terms) + Model(*iterms)
+            return Model() + Model(*terms) + Model(*iterms)
         else:  # pragma: no cover
             return NotImplemented
 
